@@ -171,6 +171,8 @@ fn valid_input(c: &FuzzCase, frames: &[u32], client: &mut Option<real::ClientTcp
 }
 
 pub struct RunInfo {
+    /// the server decoder produced an item on which the server would dial / relay (ConnectTcp, RelayUdp, a UDP datagram)
+    pub dial: bool,
     pub items: usize,
     pub err: bool,
     pub invalid_utf8: bool,
@@ -178,7 +180,7 @@ pub struct RunInfo {
 }
 
 fn info_of<T>(fed: &Fed<T>, total: usize, utf8_bad: bool) -> RunInfo {
-    RunInfo { items: fed.items.len(), err: fed.err.is_some(), invalid_utf8: utf8_bad, progressed: fed.items.len() > 0 || fed.leftover < total || fed.calls > 1 }
+    RunInfo { dial: false, items: fed.items.len(), err: fed.err.is_some(), invalid_utf8: utf8_bad, progressed: fed.items.len() > 0 || fed.leftover < total || fed.calls > 1 }
 }
 
 fn feed_eof<D: Decoder>(dec: &mut D, segs: &[Vec<u8>], eof: bool) -> Fed<D::Item>
@@ -221,7 +223,11 @@ pub fn run_target(c: &FuzzCase, client: Option<real::ClientTcp>, segs: &[Vec<u8>
                 InboundIn::ConnectTcp(_, a) | InboundIn::RelayUdp(_, a) => !address_is_valid_utf8(a),
                 _ => false,
             });
-            done(fed, total, bad)
+            let dial = fed.items.iter().any(|i| matches!(i, InboundIn::ConnectTcp(..) | InboundIn::RelayUdp(..)));
+            done(fed, total, bad).map(|mut i| {
+                i.dial = dial;
+                i
+            })
         }
         Tgt::ClientTcp => {
             let mut codec = match client {
@@ -254,7 +260,7 @@ pub fn run_target(c: &FuzzCase, client: Option<real::ClientTcp>, segs: &[Vec<u8>
                     Ok(Ok(None)) => {}
                 }
             }
-            Ok(RunInfo { items, err, invalid_utf8: bad, progressed: items > 0 || total >= 60 })
+            Ok(RunInfo { dial: items > 0, items, err, invalid_utf8: bad, progressed: items > 0 || total >= 60 })
         }
         Tgt::ClientUdpSs => {
             let cctx = real::ClientUdpCtx::new(&c.cred).map_err(|e| format!("harness: {}", e))?;
@@ -274,7 +280,7 @@ pub fn run_target(c: &FuzzCase, client: Option<real::ClientTcp>, segs: &[Vec<u8>
                     Ok(Ok(None)) => {}
                 }
             }
-            Ok(RunInfo { items, err, invalid_utf8: bad, progressed: items > 0 || total >= 60 })
+            Ok(RunInfo { dial: false, items, err, invalid_utf8: bad, progressed: items > 0 || total >= 60 })
         }
         Tgt::ClientVmessUdp => {
             let address = to_address(&Addr::Name(b"example.org".to_vec(), 53)).unwrap();
@@ -320,7 +326,7 @@ pub fn run_target(c: &FuzzCase, client: Option<real::ClientTcp>, segs: &[Vec<u8>
                     Ok(Ok(None)) => {}
                 }
             }
-            Ok(RunInfo { items, err, invalid_utf8: bad, progressed: items > 0 || total >= 5 })
+            Ok(RunInfo { dial: false, items, err, invalid_utf8: bad, progressed: items > 0 || total >= 5 })
         }
     }
 }
@@ -874,4 +880,122 @@ pub fn run(ctx: &mut PropCtx) {
     ctx.mark_exhaustive("small-inputs", "all inputs of length <= 1, 9x256 grid of length 2, every prefix of one valid message, per decoder, quiet and EOF");
     rt::run_sub(ctx, &SealedMalformed, t.pick(120_000, 3_000_000));
     rt::run_sub(ctx, &HttpStrings, t.pick(60_000, 2_000_000));
+}
+
+// -------------------------------------------------------------------------- coverage-guided raw target (fuzz/fz_raw)
+
+struct RawFuzzStats {
+    execs: u64,
+    nontrivial: std::collections::HashSet<String>,
+    labels: std::collections::BTreeMap<String, u64>,
+}
+
+static RAW_STATS: std::sync::Mutex<Option<RawFuzzStats>> = std::sync::Mutex::new(None);
+
+pub fn raw_fuzz_write_stats() {
+    let Ok(dir) = std::env::var("OVF_FUZZ_STATS") else { return };
+    let Ok(g) = RAW_STATS.lock() else { return };
+    let Some(s) = g.as_ref() else { return };
+    let _ = std::fs::create_dir_all(&dir);
+    let mut nt: Vec<&String> = s.nontrivial.iter().collect();
+    nt.sort();
+    let v = serde_json::json!({"execs": s.execs, "decoded": s.execs, "nontrivial": nt, "labels": s.labels, "samples": [], "fail": null});
+    let _ = std::fs::write(format!("{}/{}.json", dir, std::process::id()), v.to_string());
+}
+
+/// Layout of a raw fuzz input: [decoder, credential, flags, cut0 (u16 le), cut1 (u16 le)] ++ network bytes.
+/// flags: bit0 EOF, bit1-2 number of users (2022 AES / VMess), bit3-5 mode: 0 = the bytes are the wire input; 1.. = the bytes
+/// are a *plaintext* that is sealed with the reference under the correct key (the sealed-malformed family), so that byte-level
+/// mutation and compare tracing act on the parsers behind the tag check.
+pub fn raw_fuzz_case(data: &[u8]) -> Option<Result<FuzzCase, SealedCase>> {
+    if data.len() < 7 {
+        return None;
+    }
+    let tgts = [Tgt::ServerTcp, Tgt::ClientTcp, Tgt::ServerUdpSs, Tgt::ClientUdpSs, Tgt::ClientVmessUdp, Tgt::ClientTrojanUdp, Tgt::Socks5Init, Tgt::Socks5Cmd, Tgt::Socks5InitResp, Tgt::Socks5CmdResp, Tgt::Socks5Udp];
+    let tgt = tgts[data[0] as usize % tgts.len()];
+    let flags = data[2];
+    let users = ((flags >> 1) & 3) as usize;
+    let mode = (flags >> 3) & 7;
+    let body = data[7..].to_vec();
+    if mode != 0 {
+        let what = match (mode, data[0] % 7) {
+            (1, 0) => Sealed::LegacyRequestPlain(body),
+            (1, 1) => Sealed::LegacyDatagramPlain(body),
+            (1, 2) => Sealed::S22RequestVar(body),
+            (1, 3) => Sealed::S22DatagramBody(flags & 1 == 1, body),
+            (1, 4) => Sealed::VmessHeaderPlain(body, flags & 1 == 1),
+            (1, 5) => Sealed::VmessResponseHeader(body),
+            (1, _) => Sealed::TrojanAfterHash(body),
+            (2, _) if body.len() >= 5 => Sealed::VmessHeaderFields(body[0], body[1], body[2], body[3], body[5..].to_vec(), body[4] % 8),
+            _ => return None,
+        };
+        return Some(Err(SealedCase { seed: data[1] as u64, cipher: data[1] % 8, users: users as u8 % 3, what, cut: u16::from_le_bytes([data[3], data[4]]) }));
+    }
+    let protos: Vec<Proto> = match tgt {
+        Tgt::ServerTcp | Tgt::ClientTcp => Proto::all(),
+        Tgt::ServerUdpSs | Tgt::ClientUdpSs => Proto::all().into_iter().filter(|p| matches!(p, Proto::SsLegacy(_) | Proto::Ss22(_))).collect(),
+        Tgt::ClientVmessUdp => vec![Proto::Vmess(3), Proto::Vmess(4)],
+        _ => vec![Proto::Trojan],
+    };
+    let proto = protos[data[1] as usize % protos.len()];
+    let n_users = match proto {
+        Proto::Ss22(c) if c.is_aes() => users,
+        Proto::Vmess(_) => users.max(1),
+        _ => 0,
+    };
+    let cred = gen::make_cred(proto, "pw", 7, n_users, 0);
+    let cuts = vec![u16::from_le_bytes([data[3], data[4]]), u16::from_le_bytes([data[5], data[6]])];
+    Some(Ok(FuzzCase { cred, tgt, shape: Shape::Raw(body), cuts, eof: flags & 1 == 1, seed: 7 }))
+}
+
+/// One execution of the raw target: Some(failure) if an oracle is violated.
+pub fn raw_fuzz_entry(data: &[u8]) -> Option<crate::ev::Fail> {
+    let case = raw_fuzz_case(data)?;
+    let out = match &case {
+        Ok(c) => {
+            let mut out = exec_fuzz("raw-bytes", c);
+            // C06: bytes that were made without the credential never make the server dial. (A coverage-guided fuzzer reads the
+            // process's memory through compare tracing, so an input that *contains* the Trojan hash is not "without credential".)
+            if out.fail.is_none() && matches!(c.tgt, Tgt::ServerTcp | Tgt::ServerUdpSs) {
+                if let Shape::Raw(b) = &c.shape {
+                    let has_cred = match c.cred.proto {
+                        Proto::Trojan => {
+                            let h = refside::ref_keys(&c.cred).map(|k| k.trojan_client_pw.clone()).unwrap_or_default();
+                            // "knows the hash": the first 56 bytes name, pair by pair, the 28 bytes of SHA-224(password) in any
+                            // spelling an integer parser takes (upper case, a sign in front of one digit)
+                            let hex = trojan::key_hex(&h);
+                            let pairs = |x: &[u8]| -> Option<Vec<u8>> { x.chunks(2).map(|p| std::str::from_utf8(p).ok().and_then(|t| u8::from_str_radix(t, 16).ok())).collect() };
+                            b.len() >= 56 && pairs(&b[..56]).is_some() && pairs(&b[..56]) == pairs(&hex[..])
+                        }
+                        _ => false,
+                    };
+                    if !has_cred {
+                        real::set_clock(Some(T0));
+                        let n = b.len();
+                        let cuts: Vec<usize> = c.cuts.iter().map(|p| 1 + rt::idx(*p, n.saturating_sub(1))).collect();
+                        let segs = if c.tgt == Tgt::ServerUdpSs { vec![b.clone()] } else { cut(b, &cuts) };
+                        if let Ok(info) = run_target(c, None, &segs) {
+                            if info.dial {
+                                out.fail(format!("raw-bytes/{:?}/{}/dial-item-from-bytes-made-without-the-credential", c.tgt, family(c.cred.proto)), format!("{} raw bytes that were not produced with the credential made the server decoder yield a dial / relay item", n));
+                            }
+                        }
+                    }
+                }
+            }
+            out
+        }
+        Err(sc) => SealedMalformed.exec(sc),
+    };
+    let mut g = RAW_STATS.lock().unwrap();
+    let st = g.get_or_insert_with(|| RawFuzzStats { execs: 0, nontrivial: Default::default(), labels: Default::default() });
+    st.execs += 1;
+    for l in &out.labels {
+        *st.labels.entry(l.clone()).or_default() += 1;
+    }
+    if let Some(fp) = &out.nontrivial {
+        if st.nontrivial.len() < 200_000 {
+            st.nontrivial.insert(fp.clone());
+        }
+    }
+    out.fail
 }
